@@ -14,9 +14,9 @@ pub struct C10 {
 impl C10 {
 	pub fn new() -> Self {
 		let mut q = Space::new(false);
-		q.n_random = 1500;
+		q.n_random = 4000;
 		let mut t = Space::new(true);
-		t.n_random = 40000;
+		t.n_random = 200000;
 		C10 { quick: q, thorough: t, fixtures: common::fixtures() }
 	}
 }
